@@ -538,6 +538,11 @@ func (w *c03World) startOn(b *Browser, target string) (loginURL, state, ckName, 
 
 func (w *c03World) start(b int, n int) {
 	k := len(w.logins) + 1
+	if k > 1 {
+		// logins of one history start in different seconds (CSRF cookies carry a timestamp with
+		// one-second resolution; anything that orders or compares them must not matter)
+		world.Advance(2 * time.Second)
+	}
 	l := &c03Login{Idx: k, Browser: b, Gen: uint64(n + 1), Started: world.Offset()}
 	l.Target = w.startTarget(b, k)
 	world.SeedRandom(w.seed, l.Gen)
